@@ -1,3 +1,3 @@
 #pragma once
 #include "c14x_aes.h"
-unsigned g_ec; const void *g_erk[VC_ANB], *g_ein[VC_ANB], *g_eout[VC_ANB]; int g_enr[VC_ANB]; uint8_t g_ei[VC_ANB][16]; uint8_t g_eo[VC_ANB][16];
+unsigned g_ec; size_t g_erk_o[VC_ANB], g_erk_f[VC_ANB], g_ein_o[VC_ANB], g_ein_f[VC_ANB], g_eout_o[VC_ANB], g_eout_f[VC_ANB]; int g_enr[VC_ANB]; uint8_t g_ei[VC_ANB][16]; uint8_t g_eo[VC_ANB][16];
